@@ -7,6 +7,8 @@ import (
 	"net/http"
 	"os"
 	"path/filepath"
+	"runtime"
+	"sort"
 	"strings"
 	"sync"
 	"testing"
@@ -473,6 +475,102 @@ func scenarioErrorBody(fail bool) string {
 	return fmt.Sprintf("SCENARIO prop=%s code=%s name=%s | answer=%s/%q hung=%v problems=%q %s\n", prop, code, name, r.status, r.body, hung, strings.Join(problems, " ; "), v)
 }
 
+// C14: a temporary file left in the directory of a long key by a Set that was interrupted (or is in flight) is not a key: listing
+// still works and returns exactly the live keys
+func scenarioKeysWithTempFile(encrypted bool) string {
+	name := "temp-file-fs"
+	fo := []fscache.Option{}
+	if encrypted {
+		name = "temp-file-fsenc"
+		fo = append(fo, fscache.WithEncryption(encKey))
+	}
+	dir, err := os.MkdirTemp("", "verif-sc-")
+	if err != nil {
+		return ""
+	}
+	defer os.RemoveAll(dir)
+	conn, err := fscache.Open("verif", append(fo, fscache.WithBaseDir(dir))...)
+	if err != nil {
+		return ""
+	}
+	long := "http://a.test/" + strings.Repeat("k", 240)
+	short := "http://a.test/short"
+	_ = conn.Set(long, []byte("v-long"))
+	_ = conn.Set(long+"#1", []byte("v-long-entry"))
+	_ = conn.Set(short, []byte("v-short"))
+	planted := 0
+	_ = filepath.Walk(dir, func(p string, info os.FileInfo, err error) error {
+		if err == nil && info.IsDir() && p != dir {
+			if os.WriteFile(filepath.Join(p, ".tmp-0123456789abcdef"), []byte("partial"), 0o600) == nil {
+				planted++
+			}
+		}
+		return nil
+	})
+	type lister interface {
+		Keys(prefix string) ([]string, error)
+	}
+	l, ok := any(conn).(lister)
+	if !ok {
+		return fmt.Sprintf("SCENARIO prop=C14 code=C14:temp-file-listed name=%s | harness: the backend has no Keys SKIP\n", name)
+	}
+	keys, kerr := l.Keys("")
+	sort.Strings(keys)
+	want := []string{long, long + "#1", short}
+	sort.Strings(want)
+	v := "ok"
+	problem := ""
+	if kerr != nil {
+		v, problem = "BAD", "Keys failed: "+kerr.Error()
+	} else if fmt.Sprint(keys) != fmt.Sprint(want) {
+		v, problem = "BAD", fmt.Sprintf("Keys returned %d keys, %d are live", len(keys), len(want))
+	}
+	return fmt.Sprintf("SCENARIO prop=C14 code=C14:temp-file-listed name=%s | temp_files_planted=%d keys=%d problem=%q %s\n", name, planted, len(keys), problem, v)
+}
+
+// C15: what Get returned stays what it was: a later Get (of another key, through the same handle) does not write into it
+func scenarioGetResultStable(encrypted bool) string {
+	name := "get-result-fs"
+	fo := []fscache.Option{}
+	if encrypted {
+		name = "get-result-fsenc"
+		fo = append(fo, fscache.WithEncryption(encKey))
+	}
+	dir, err := os.MkdirTemp("", "verif-sc-")
+	if err != nil {
+		return ""
+	}
+	defer os.RemoveAll(dir)
+	conn, err := fscache.Open("verif", append(fo, fscache.WithBaseDir(dir))...)
+	if err != nil {
+		return ""
+	}
+	old := runtime.GOMAXPROCS(1)
+	defer runtime.GOMAXPROCS(old)
+	bad := ""
+	for round := 0; round < 6 && bad == ""; round++ {
+		v1 := bytes.Repeat([]byte{byte('a' + round)}, 48<<10)
+		v2 := bytes.Repeat([]byte{byte('A' + round)}, 16<<10)
+		_ = conn.Set("k1", v1)
+		_ = conn.Set("k2", v2)
+		g1, e1 := conn.Get("k1")
+		g2, e2 := conn.Get("k2")
+		g3, e3 := conn.Get("k2")
+		if e1 != nil || e2 != nil || e3 != nil {
+			bad = fmt.Sprintf("harness: get failed: %v %v %v", e1, e2, e3)
+		} else if !bytes.Equal(g1, v1) {
+			bad = fmt.Sprintf("the %d bytes returned for k1 changed after later Gets (first difference at %d)", len(g1), firstDiff(g1, v1))
+		} else if !bytes.Equal(g2, v2) || !bytes.Equal(g3, v2) {
+			bad = "the bytes returned for k2 changed after a later Get"
+		}
+	}
+	v := "ok"
+	if bad != "" {
+		v = "BAD"
+	}
+	return fmt.Sprintf("SCENARIO prop=C15 code=C15:get-result-overwritten name=%s | problem=%q %s\n", name, bad, v)
+}
+
 func TestScenarios(t *testing.T) {
 	out := os.Getenv("VERIF_OUT")
 	if out == "" {
@@ -486,6 +584,7 @@ func TestScenarios(t *testing.T) {
 	lines = append(lines, scenarioMultiLineSelecting())
 	lines = append(lines, scenarioUnprintableSelecting())
 	lines = append(lines, scenarioErrorBody(false), scenarioErrorBody(true))
+	lines = append(lines, scenarioKeysWithTempFile(false), scenarioKeysWithTempFile(true), scenarioGetResultStable(false), scenarioGetResultStable(true))
 	if err := writeLines(filepath.Join(out, "scenarios.txt"), lines); err != nil {
 		t.Fatal(err)
 	}
